@@ -61,6 +61,10 @@ def main():
     keys = {'100' + '00000000' + rc.bytes_to_bits(bytes.fromhex('6f5bc67986e06430961d9df00433926a4cd92e597ddd8aa6043645ac20bd1782')): ('0001' + '00001111', []),
             '100' + '00000000' + rc.bytes_to_bits(bytes.fromhex('83dfd552e63729b472fcbcc8c45ebcc6691702558b68ec7527e1ba403a0f31a8')): ('0001' + '00001010', [])}
     assert dictref.encode(keys, 267).hash.hex() == 'c279e85752ad418d54a023d5d391066fa6a560450f9562dcecfa6e6641393b6a'
+    # R3: every transcribed constructor: generate, encode, decode (exact consumption), re-encode to the identical cell
+    from lib import tlbref, tlbspec
+    tlbref.selftest()
+    tlbspec.selftest()
     print('reference selftest ok')
 
 
